@@ -118,7 +118,7 @@ def execute_factory(obl):
                 r.labels.append("c01-divergence")
         f = ref_lazy.features
         nt = {"resolved-at-wait-instant", "wait-already-resolved", "combinator-preresolved-input", "nested-combinator",
-              "parked-with-hooks", "yield-from-depth>=2", "double-resolve"} & f
+              "parked-with-hooks", "yield-from-depth>=2", "double-resolve", "hook-added-late"} & f
         r.nontrivial = bool(nt) and not ambiguous
         r.labels += sorted(nt) + (["ambiguous"] if ambiguous else [])
         r.target = float(len(nt))
@@ -179,7 +179,7 @@ def ex_float(case):
 
 RULE = ("generated programs whose handlers are generators built from yield delay / yield delay,[events] / yield future / "
         "yield any_of|all_of trees / yield from (depth<=3), futures resolved by other handlers before, at and after the wait, "
-        "double resolves, completion hooks on parked processes; non-trivial = the reference run shows at least one of: future "
+        "double resolves, completion hooks on parked processes, hooks attached late (by the running process to its own event or to another pending / in-flight event); non-trivial = the reference run shows at least one of: future "
         "resolved at the wait instant, wait on an already-resolved future, combinator with a pre-resolved input, nested "
         "combinator, parked process carrying hooks, yield-from depth>=2, double resolve")
 
